@@ -2104,3 +2104,13 @@ package ucfg
 //@ sweep
 //@ modifies *
 //@ ensures [target_type] err == nil && val != nil && typeof(val) != *cfgNil && t != baseType && rtKind(t) != 20 ==> rvType(r) == t
+
+// FlattenedKeys is a read: it writes nothing but the slice it builds (C11); its run-time errors are claimed (C07)
+//@ func (*Config).FlattenedKeys :: c, opts -> keys
+//@ props C11 C07
+//@ nonil
+//@ pure
+//@ requires c != nil && c.fields != nil
+//@ ensures [fresh_result] keys == nil || fresh(base(keys))
+//@ loop 1 invariant keys == nil || fresh(base(keys))
+//@ loop 2 invariant keys == nil || fresh(base(keys))
